@@ -91,6 +91,28 @@ def regenerate(ctx):
     return {"naive": ntable, "eigen": etable}
 
 
+def restore_generated():
+    """After a run against a scratch copy (PV_REPO set: tools/try_seed.sh, hand-made changes) write the
+    generated Coq files back from /repo, so that the files kept under version control always describe
+    /repo and the next ordinary run does not start from another tree's formulas."""
+    if pv.REPO == "/repo":
+        return
+    import gen_scalar
+    import gen_scalar_eigen
+    old = os.environ.get("PV_REPO")
+    os.environ["PV_REPO"] = "/repo"
+    try:
+        gen_scalar.main()
+        gen_scalar_eigen.main()
+    except Exception:  # noqa: BLE001  (hygiene only; the next run regenerates anyway)
+        pass
+    finally:
+        if old is None:
+            os.environ.pop("PV_REPO", None)
+        else:
+            os.environ["PV_REPO"] = old
+
+
 # ----------------------------------------------------------------------------- grid
 
 def f32(v):
@@ -312,6 +334,7 @@ def search(ctx, tables, proof_res):
             "grid": "x in %s; k in %s; (a,b) in %s^2; pown k in %s; gy in %s; y = forward value" % (XS, KS, AB, POWN_K, GYS),
             "seconds": round(time.time() - t0, 2)}
     cov["focused_search"] = summ
+    restore_generated()
     cov["rule"] = ("theorems: for every real argument the Eigen expression and the Naive expression of each of the 66 elementwise formulas "
                    "(regenerated from the tree) are equal; run: both formulas in double and both real kernels on the grid below")
     return summ
